@@ -86,6 +86,8 @@ def run_vx_unit(unit: str, repo: str, scratch: str, tier: str, log: List[str]):
     info["functions_under_contract"] = [f"{e.file}:{e.line} {e.name}" for e in verify]
     info["assumed_contracts"] = [f"{e.file}:{e.line} {e.name}" for e in stubs]
     info["rewrites_applied"] = {e.name: e.rewrites for e in verify if e.rewrites}
+    info["variant_split_functions"] = [e.name for e in ub.emitted if e.kind == "split-summary"]
+    info["carved_blocks"] = ub.carved
     info["source_sha256"] = {e.name: e.sha256 for e in verify}
     if r.status == "undecided" and not r.fns:
         reason = r.reason or "verus gave no per-function result"
@@ -218,6 +220,16 @@ def main_check(a) -> int:
         lock[prop] = sorted(o.oid for o in obls if o.status == "discharged" or _is_known(prop, o, known))
         json.dump(lock, open(LOCK, "w"), indent=1, sort_keys=True)
         print(f"relocked {prop}: {len(lock[prop])} obligations")
+    carve_lock = lock.setdefault("_carved", {})
+    carved_now = {c["stub"]: c["sha256"] for i in infos for c in i.get("carved_blocks", [])}
+    if a.relock:
+        carve_lock.update(carved_now)
+        json.dump(lock, open(LOCK, "w"), indent=1, sort_keys=True)
+    for stub, sha in carved_now.items():
+        if carve_lock.get(stub) != sha:
+            obls.append(Obligation(f"vx:carved:{stub}", "VX", "carved", "<carved>", "undecided", "extractor",
+                                   detail={"reason": f"unverified-code-changed: the carved-out block behind the assumed contract `{stub}` has "
+                                                     f"sha256 {sha}, locked {carve_lock.get(stub)}"}))
     locked = set(lock.get(prop, []))
     by_id = {o.oid: o for o in obls}
     missing = sorted(locked - set(by_id))
